@@ -81,12 +81,37 @@ class ErrorFree(BCheck):
             yield dict(seed=seed, noref=(i % 5 == 4), depth_hi=(30 if i % 6 == 0 else (3 if i % 6 in (2, 4) else 8)), tag="PS" if i % 2 else "HP", only_snvs=(i % 7 == 3),
                        subset=(i % 4 == 1), max_coverage=15 if i % 3 else 6,
                        snap=(0.3 if i % 2 == 0 else 1.0), two_files=(i % 8 == 5),
-                       pile=(r_pile(i)))
+                       pile=(r_pile(i)), ins_end=(4 if i % 12 == 7 else 0))
 
     def scenario(self, inp):
         r = random.Random(inp["seed"])
-        kinds = ("snv",) if inp["noref"] else r.choice([("snv", "snv", "ins", "del", "mnp"), ("ins", "del"), ("snv", "mnp"), ("del", "snv"), ("ins", "snv")])
+        kinds = ("snv",) if inp["noref"] else ("ins", "snv") if inp.get("ins_end") else r.choice([("snv", "snv", "ins", "del", "mnp"), ("ins", "del"), ("snv", "mnp"), ("del", "snv"), ("ins", "snv")])
         sc = BAM.generate(r, n_samples=(1, 2), kinds=kinds, depth=(2, inp["depth_hi"]), read_len=(40, 150), snap_prob=inp.get("snap", 1.0))
+        if inp.get("ins_end"):
+            # reads of the haplotype that CARRIES an insertion, ending exactly at the insertion's anchor base (an error-free copy of that haplotype that stops
+            # before the inserted bases): placements the statement quantifies over ("any read lengths"); see known finding F23
+            serial = 2 * 10 ** 6
+            for smp in sc["samples"]:
+                for c in sc["contigs"]:
+                    haps = sc["truth"][smp][c["name"]]
+                    for i, v in enumerate(c["variants"]):
+                        if v["kind"] != "ins":
+                            continue
+                        for h in (0, 1):
+                            if haps[h][i] != 1 or haps[1 - h][i] != 0:
+                                continue
+                            for _ in range(inp["ins_end"]):
+                                b = v["pos"] + 1
+                                a = BAM.snap(c["variants"], max(0, b - r.randint(30, 120)), True)
+                                al = list(haps[h])
+                                al[i] = 0          # the read stops at the anchor base: it contains none of the inserted bases
+                                try:
+                                    seq, cigar, start = BAM.haplotype_read(c["seq"], c["variants"], al, a, b)
+                                except ValueError:
+                                    continue
+                                sc["reads"].append(dict(name="%s.h%d.%d" % (smp, h, serial), sample=smp, hap=h, contig=c["name"], start=start,
+                                                        cigar=[list(x) for x in cigar], seq=seq, flag=0, mapq=60))
+                                serial += 1
         if inp.get("pile"):
             # many reads of the REF-carrying haplotype that end inside a variant's REF span, at low regular depth
             BAM.add_reads_ending_in_variants(r, sc, per_variant=inp["pile"])
